@@ -2,7 +2,7 @@ SPEC = {
     "id": "C25",
     "coq_props": ["Properties/C25.v", "Corr/C25.v"],
     "module": "MS.Properties.C25",
-    "theorems": ["C25_guarded", "C25_fixed_converges", "C25_retick_reencodes"],
+    "theorems": ["C25_guarded", "C25_fixed_converges", "C25_retick_reencodes", "C25_variable_close_partial", "C25_gt_is_enc"],
     "corr_require": "Require Import MS.Corr.C25.",
     "agrees": "C25.agrees",
     "in_domain": "C25.in_domain",
@@ -17,7 +17,9 @@ SPEC = {
             "non-trivial = inside the theorem's guard (well-formed write sets, mixed TGs included) with >= 2 write sets",
     "trusted_base": [
         "Coq 8.16.1 kernel + vm_compute (no native_compute); C25_guarded, C25_fixed_converges, C25_retick_reencodes: no axioms "
-        "(the non-vacuity example evaluates C10's Flocq model of the tick codec)",
+        "(the non-vacuity example evaluates C10's Flocq model of the tick codec); C25_variable_close_partial is a corollary of builder-B's "
+        "C10 round-trip bound (Proofs/Ticks_decoder.v): Coq.Reals axioms, Classical_Prop.classic and the primitive-integer/float axioms of "
+        "the Interval tactic enter through it",
         "builder C30's UTC time-index theorems (Proofs/TimeIndex_facts.v: index_bracket_utc, year_of_utc_iff, year_start_utc) are imported and re-checked",
         "hand-written model coq/Model/Repl.v at the level of PARSED write sets: Replay, wtSetToCS, serializeVariableRecords, the replica's "
         "WriteCSM/WriteRecords for a one-bucket csm, an abstract primary store (slot -> bytes; VARIABLE slots stably sorted by ticks), full-range query; "
@@ -32,7 +34,8 @@ SPEC = {
     "assumptions": [
         "zone UTC (utils.InstanceConfig.Timezone = UTC); timeframes of whole seconds that tile the day, 1D included (guard tf_okb)",
         "VARIABLE buckets: the theorem gives the replica's store exactly: every record's ticks re-encoded from the time they decode to. That "
-        "decode(encode(decode(ticks))) stays within the resolution is NOT proved "
+        "decode(encode(decode(ticks))) stays within one resolution step is proved per record under C10's side condition dec_nowrapb "
+        "(C25_variable_close_partial); the store-level statement is NOT proved "
         "(Definition C25_variable_close; it is C10's open float bound); it is checked on the model and on the real code for every generated case",
         "transaction groups with several write sets are produced by Writer.WriteRecords per write + one RequestFlush (the steps of WriteCSM without "
         "its per-call flush), so that the order of the sets is chosen by the generator; single-write groups also go through the real WriteCSM",
